@@ -386,7 +386,7 @@ class Solver:
 
         assert (path_dist >= direct_dist) or (np.isclose(path_dist, direct_dist))
 
-        dist_factor = path_dist / direct_dist if direct_dist != 0.0 else 1.0
+        dist_factor = max(path_dist / direct_dist, 1.0) if direct_dist != 0.0 else 1.0
         iterations = iteration
 
         assert status is not None
